@@ -1,8 +1,9 @@
 (* C04: linking. (i) import matching as internal/wasm/store.go resolveImports does it, (ii) the
    specification's import subtyping [extern_match], (iii) constant expressions and the instantiation
-   sequence of store.go instantiate (resolve imports, allocate, initialise globals, active data
-   segments, active element segments, start) as a function on the multi-instance store of the
-   reference semantics W (Wasm/Sem.v), where sharing is identity of store addresses.
+   sequence of store.go instantiate (validated constant expressions, resolve imports, allocate,
+   initialise globals, active element segments, active data segments, start: the order since 9ab0d2d)
+   as a function on the multi-instance store of the reference semantics W (Wasm/Sem.v), where
+   sharing is identity of store addresses.
    The page arithmetic and the normalisation of a declared memory maximum come from coq/Gen
    (regenerated from internal/wasm/memory.go and internal/wasm/binary/decoder.go on every run); the
    control structure is transcribed by hand and tied to the code by the C04 correspondence harness,
